@@ -46,7 +46,15 @@ def job(args):
     out.append(("C12.circuit_assembly", ok_asm, f"asm:{n}:{conn}:{orb}{vk}", f"measurement circuit for {label} on {n}-{conn}: body != readout circuit or measure map {mm}", rp))
     def symbolic():
         counts = tomo.symbolic_counts(n, "c")
-        vals = StabilizerMeasurementFitter(tomo.FakeResult(counts), circ).expectation_values()
+        if seed % 3 == 0:
+            # a Result holding several circuits: the documented `result_index` selects this circuit's counts (the other entries are decoys)
+            decoy = {k: 17 for k in counts}
+            ri = 1 + (seed // 3) % 2
+            res = [decoy, decoy, decoy]
+            res[ri] = counts
+            vals = StabilizerMeasurementFitter(tomo.FakeResult(res), circ, result_index=ri).expectation_values()
+        else:
+            vals = StabilizerMeasurementFitter(tomo.FakeResult(counts), circ).expectation_values()
         probs = tomo.check_fitter_dict(vals, ro, n, n, None, "c", True)
         keys = {tomo.pauli_to_xz(k)[:2] for k in vals}
         grp = {(x, z) for x, z, _ in P.group_elements(n, gens)}
@@ -59,7 +67,10 @@ def job(args):
     # the same contract on concrete results (absent keys for outcomes that never occurred): deterministic outcomes, two-outcome results, dense counts, float probabilities
     for tag, cl in tomo.concrete_sets(n, 1, rnd, all_deltas=n <= 3, light=True):
         try:
-            vals = StabilizerMeasurementFitter(tomo.FakeResult(cl[0]), circ).expectation_values()
+            if tag.startswith("two-outcome"):
+                vals = StabilizerMeasurementFitter(tomo.FakeResult([{tomo.key_of(0, n): 5}, {tomo.key_of(0, n): 5}, cl[0]]), circ, result_index=2).expectation_values()
+            else:
+                vals = StabilizerMeasurementFitter(tomo.FakeResult(cl[0]), circ).expectation_values()
             pc = tomo.check_concrete(vals, [(ro, n, None, True)], cl, n)
         except Exception as e:
             pc = [f"fitter raised {type(e).__name__}: {e}"]
